@@ -1,0 +1,28 @@
+//go:build verif
+// +build verif
+
+package p9
+
+// This file exists only under the "verif" build tag. Exhausting the tag or
+// fid allocator for real needs 65534 calls in flight, or four billion files
+// held, on one client. The verification harness in /verif instead asks the
+// allocator to behave as if that many values had already been handed out and
+// were still held, and then watches what the next few calls put on the wire.
+// Nothing here is compiled into normal builds.
+
+// take behaves like n calls of Get whose values are never Put back, except
+// that values waiting in the cache are left there.
+func (p *pool) take(n uint64) {
+	p.mu.Lock()
+	defer p.mu.Unlock()
+	if left := p.limit - p.start; n > left {
+		n = left
+	}
+	p.start += n
+}
+
+// VerifHoldTags marks the next n never-used tags as outstanding for good.
+func (c *Client) VerifHoldTags(n uint64) { c.tagPool.take(n) }
+
+// VerifHoldFIDs marks the next n never-used fids as held for good.
+func (c *Client) VerifHoldFIDs(n uint64) { c.fidPool.take(n) }
